@@ -1081,6 +1081,20 @@ def main():
             orders = sweep_orders if (mi == 0 and vi < len(all_pairs)) else draw_orders(rng, min_order(tk, sk))
             identity_case("I:%s:%sx%s:v%d" % (mname, tk, sk, vi), mname, mesh, grid, topo, closed, tk, sk, ot, os_, orders, scope=mi < 2)
         ctx.lap("identity_pairs")
+        # ---- identity between spaces whose normal orientations DIFFER (swapped_normals on one side only): SNC = n x RWG is the
+        # basis that feels the orientation, as test space and as trial space (one SNC pair also in the quick tier)
+        doms_ = sorted(set(mesh.D.tolist()))
+        if len(doms_) >= 2 and mi < 2:
+            for tk, sk in ((("SNC", "RWG"),) if ctx.quick else (("SNC", "RWG"), ("RWG", "SNC"), ("SNC", "SNC"))):
+                for side in (0, 1):
+                    rng = ctx.rng(mname, "swap", tk, sk, side)
+                    ot = {"swapped_normals": [int(doms_[0])]} if side == 0 else {}
+                    os_ = {} if side == 0 else {"swapped_normals": [int(doms_[-1])]}
+                    if not closed:
+                        ot["include_boundary_dofs"] = os_["include_boundary_dofs"] = True
+                    identity_case("I:%s:%sx%s:swap%d" % (mname, tk, sk, side), mname, mesh, grid, topo, closed, tk, sk, ot, os_,
+                                  draw_orders(rng, min_order(tk, sk)))
+            ctx.lap("identity_swapped_one_side")
         # ---- Laplace-Beltrami
         for vi in range(5 if ctx.quick else 12):
             rng = ctx.rng(mname, "lb", vi)
